@@ -81,10 +81,7 @@ def check_static(case) -> Result:
                 ct = sum(refmods.mods_mass(ms, True) for ms, tg in pep['static'] if 'C-Term' in tg)
                 has = (nt if a == 0 else 0.0) + (ct if b == len(seq) else 0.0)
                 quirk = per * (b - a) - has
-                if term and abs(d - quirk) <= 1e-5 * (b - a + 1):
-                    sig = 'C12/fragment/static-terminal-rule-counted-per-residue'
-                else:
-                    sig = f'C12/fragment/{t}'
+                sig = f'C12/fragment/{t}'
                 r.fail('same fragment ions as the explicit form', sig, ion=t, span=[a, b], rule=f1[key], explicit=f2[key], diff=d, **ctx)
                 break
     return r
